@@ -1110,10 +1110,10 @@ impl SvgElement {
         if self.name == "text" || self.name == "point" {
             return false;
         }
-        let mut size_attr = matches!(name, "width" | "height");
-        size_attr = size_attr || (self.name == "circle" && name == "r");
-        size_attr = size_attr || (self.name == "ellipse" && (name == "rx" || name == "ry"));
-        size_attr
+        // every radius spelling `Position` accepts: `r` on an ellipse is both radii,
+        // `rx` / `ry` on a circle its one radius
+        let round = self.name == "circle" || self.name == "ellipse";
+        matches!(name, "width" | "height") || (round && matches!(name, "r" | "rx" | "ry"))
     }
 
     fn is_pos_attr(&self, name: &str) -> bool {
